@@ -883,3 +883,101 @@ def cond_polarity(f, c):
         neg = not neg
         c = f.strip(f.ch(c)[0])
     return c, neg
+
+
+# --------------------------------------------------------------------------
+# loops and small path-sensitive helpers
+# --------------------------------------------------------------------------
+def natural_loops(f):
+    """list of (header, frozenset(blocks)) for every back edge t->h with h dominating t."""
+    dom = f.dominators()
+    pm = f.preds_map()
+    loops = []
+    for t in dom:
+        for h in f.succs(t):
+            if h in dom and h in dom[t]:
+                body = {h, t}
+                st = [t]
+                while st:
+                    x = st.pop()
+                    if x == h:
+                        continue
+                    for p in pm[x]:
+                        if p in dom and p not in body:
+                            body.add(p)
+                            st.append(p)
+                loops.append((h, frozenset(body)))
+    # merge loops with the same header
+    merged = {}
+    for h, b in loops:
+        merged[h] = merged.get(h, frozenset()) | b
+    return sorted(merged.items(), key=lambda kv: len(kv[1]))
+
+
+def const_tracked_vars(f):
+    """locals (decl id) of integer/bool type whose every definition in f is an integer constant."""
+    defs = {}
+    bad = set()
+    for i in f.walk():
+        n = f.nodes[i]
+        k = n["k"]
+        if k == "DeclStmt":
+            for d in n["decls"]:
+                if d.get("dk") == "Var" and d.get("ctype") in ("int", "bool", "_Bool", "unsigned int", "long"):
+                    if d.get("init", -1) >= 0:
+                        cv = f.nodes[d["init"]].get("cv")
+                        if cv is None:
+                            bad.add(d["id"])
+                        else:
+                            defs.setdefault(d["id"], set()).add(cv)
+                    else:
+                        defs.setdefault(d["id"], set())
+        elif k in ("BinaryOperator", "CompoundAssignOperator") and n["op"] in ("=", "+=", "-=", "*=", "/=", "|=", "&=", "^=", "<<=", ">>=", "%="):
+            l = f.strip(n["ch"][0])
+            ln = f.nodes[l]
+            if ln["k"] == "DeclRefExpr" and ln["decl"]["kind"] == "Var":
+                if n["op"] != "=" or f.nodes[n["ch"][1]].get("cv") is None:
+                    bad.add(ln["decl"]["id"])
+                else:
+                    defs.setdefault(ln["decl"]["id"], set()).add(f.nodes[n["ch"][1]]["cv"])
+        elif k == "UnaryOperator" and n["op"] in ("++", "--", "&"):
+            l = f.strip(n["ch"][0])
+            ln = f.nodes[l]
+            if ln["k"] == "DeclRefExpr" and ln["decl"]["kind"] == "Var":
+                bad.add(ln["decl"]["id"])
+    return set(v for v in defs if v not in bad)
+
+
+def const_assign(f, i, tracked):
+    """if CFG element node i assigns a constant to a tracked var return (var, value)."""
+    n = f.nodes[i]
+    if n["k"] == "BinaryOperator" and n["op"] == "=":
+        l = f.strip(n["ch"][0])
+        ln = f.nodes[l]
+        if ln["k"] == "DeclRefExpr" and ln["decl"].get("id") in tracked:
+            return ln["decl"]["id"], f.nodes[n["ch"][1]]["cv"]
+    if n["k"] == "DeclStmt":
+        for d in n["decls"]:
+            if d.get("dk") == "Var" and d.get("id") in tracked and d.get("init", -1) >= 0:
+                return d["id"], f.nodes[d["init"]]["cv"]
+    return None
+
+
+def eval_const_cond(f, cond, consts):
+    """evaluate a leaf branch condition over tracked constants: True/False/None(unknown)."""
+    c, neg = cond_polarity(f, cond)
+    n = f.nodes[c]
+    val = None
+    d = dict(consts)
+    if n["k"] == "DeclRefExpr" and n["decl"].get("id") in d:
+        val = d[n["decl"]["id"]] != 0
+    elif n["k"] == "BinaryOperator" and n["op"] in ("==", "!="):
+        a, b = (f.strip(x) for x in n["ch"])
+        an, bn = f.nodes[a], f.nodes[b]
+        if bn["k"] == "DeclRefExpr" and bn["decl"].get("id") in d and "cv" in an:
+            a, b, an, bn = b, a, bn, an
+        if an["k"] == "DeclRefExpr" and an["decl"].get("id") in d and "cv" in bn:
+            val = (d[an["decl"]["id"]] == bn["cv"]) == (n["op"] == "==")
+    if val is None:
+        return None
+    return (not val) if neg else val
